@@ -16,11 +16,12 @@ theorem merging_compiled_out : Gen.Range.mergingCompiledIn = false := by decide
 
 /-! ### specification side -/
 
-/-- what `HttpHdrRangeSpec::parseInit` can produce: suffix (`offset` unknown), trailer (`length` unknown), range -/
+/-- what `HttpHdrRangeSpec::parseInit` can produce: suffix (`offset` unknown), trailer (`length` unknown), range
+(length 0 only arises for `INT64_MAX-INT64_MAX`, whose last-byte-pos is lowered by one) -/
 def Spec.WF (s : Spec) : Prop :=
   (s.offset = -1 ∧ 0 ≤ s.length ∧ s.length ≤ LLONG_MAX) ∨
   (0 ≤ s.offset ∧ s.offset ≤ LLONG_MAX ∧ s.length = -1) ∨
-  (0 ≤ s.offset ∧ 1 ≤ s.length ∧ s.offset + s.length ≤ LLONG_MAX)
+  (0 ≤ s.offset ∧ 0 ≤ s.length ∧ s.offset + s.length ≤ LLONG_MAX)
 
 /-- byte position `b` of a representation of `clen` bytes is requested by the spec (RFC 7233 section 2.1):
 suffix `-n`: the last `n` bytes; trailer `f-`: from `f` on; range `f-l` (stored as offset `f`, length `l+1-f`): `f..l` -/
@@ -40,7 +41,7 @@ def canonical (s : Spec) (clen : Int) : Option Spec :=
   else if s.length = -1 then
     if s.offset < clen then some ⟨s.offset, clen - s.offset⟩ else none
   else
-    if s.offset < clen then some ⟨s.offset, min s.length (clen - s.offset)⟩ else none
+    if s.offset < clen ∧ 0 < s.length then some ⟨s.offset, min s.length (clen - s.offset)⟩ else none
 
 /-! ### checked arithmetic -/
 
@@ -162,8 +163,7 @@ theorem canonizeSpec_eq (s : Spec) (hwf : s.WF) (clen : Int) (hc0 : 0 ≤ clen) 
       simp only [canonical, hne, if_false, hne2]
       split at hg
       · rename_i hgt
-        have hlt : s.offset < clen := by omega
-        simp only [hlt, if_true]
+        rw [if_pos (by omega)]
         congr 2
         omega
       · omega
@@ -173,8 +173,7 @@ theorem canonizeSpec_eq (s : Spec) (hwf : s.WF) (clen : Int) (hc0 : 0 ≤ clen) 
       split at hg
       · omega
       · rename_i hng
-        have hlt : ¬ (s.offset < clen) := by omega
-        simp [hlt]
+        rw [if_neg (by omega)]
 
 /-- a canonical spec is non-empty, lies inside the representation, and covers exactly the requested bytes -/
 theorem canonical_some {s : Spec} (hwf : s.WF) {clen : Int} (hc0 : 0 ≤ clen) {c : Spec} (h : canonical s clen = some c) :
